@@ -482,4 +482,7 @@ def run(ctx):
     r = ctx.rule("C09-R12", "EXC", "the help switch is honoured wherever it stands before '--': the lenient parse that looks for it never raises a parse error, "
                  "whatever else is wrong with the line (same rule as C02-R2)", reference=20)
     lenient_total_rule(ctx, r)
+    ctx.borrow("c05", "C05-R2", "C09-R13", "the switches act the same on every run of the same argv list: wrapping an argv list does not pop the program name off the caller's own list "
+               "(the second run would lose its command name and ignore where the switches stand)")
+    ctx.borrow("c10", "C10-R2", "C09-R14", "the verbosity switches govern every writing method of the I/O facade: each forwards the caller's flags to the output it delegates to")
     return ctx.results
